@@ -195,7 +195,25 @@ def run(ctx):
         obj = func_params(pack_obj)[1]
         pal = single_assign_aliases(pack_obj)
 
+        pcfg3 = CFG(pack_obj)
+
         def X(e):
+            # a name with several definitions in the function (`desc` is also the variable of the member loop): the one definition that
+            # reaches this use, if it is a plain assignment, is what the name stands for here
+            import copy as _copy
+            repl = {}
+            for nm in [x for x in ast.walk(e) if isinstance(x, ast.Name) and isinstance(x.ctx, ast.Load) and x.id not in pal]:
+                un = pcfg3.header_node_for_expr(nm) or pcfg3.node_of(nm)
+                defs_ = pcfg3.reaching_defs(nm.id).get(un.id, set()) if un is not None else set()
+                if len(defs_) == 1:
+                    dnode = pcfg3.nodes[next(iter(defs_))].ast
+                    if isinstance(dnode, ast.Assign) and len(dnode.targets) == 1 and norm(dnode.targets[0]) == nm.id:
+                        repl[nm.id] = dnode.value
+            if repl:
+                class _R(ast.NodeTransformer):
+                    def visit_Name(self, n):
+                        return _copy.deepcopy(repl[n.id]) if isinstance(n.ctx, ast.Load) and n.id in repl else n
+                e = _R().visit(_copy.deepcopy(e))
             return norm(expand_aliases(e, pal))
         # branches on Record / GroupedRecord
         branches = []
